@@ -236,6 +236,9 @@ func (fr *frame) execInstr(in ssa.Instruction, st *State) {
 		et := deref(x.Type())
 		fr.zeroInit(st, r, et)
 		fr.vals[x] = r
+		if !escapes(x) {
+			c.stable = append(c.stable, stableCell{addr: r, typ: et})
+		}
 	case *ssa.UnOp:
 		fr.execUnOp(x, st)
 	case *ssa.BinOp:
@@ -351,12 +354,34 @@ func (fr *frame) execInstr(in ssa.Instruction, st *State) {
 		c.comment("go statement ignored (spawn has no effect on the caller's state)")
 	case *ssa.Defer:
 		if len(fr.inLoops[x.Block()]) > 0 {
-			c.unsupported("defer inside a loop in %s", ShortName(fr.fn))
+			// deferred unlocks inside loops are counted in ghost heaps
+			switch calleeName(&x.Call) {
+			case "sync.(*Mutex).Unlock", "sync.(*RWMutex).Unlock":
+				c.lockOp(st, HDefW, fr.val(x.Call.Args[0]), 1)
+				fr.loopDefers = true
+				return
+			case "sync.(*RWMutex).RUnlock":
+				c.lockOp(st, HDefR, fr.val(x.Call.Args[0]), 1)
+				fr.loopDefers = true
+				return
+			}
+			c.unsupported("defer of %s inside a loop in %s", calleeName(&x.Call), ShortName(fr.fn))
 		}
 		// evaluate arguments now
 		fr.defers = append(fr.defers, &deferRec{guard: c.name("defer_guard", st.pc), call: &x.Call, fr: fr, instr: x})
 		fr.snapshotCallArgs(&x.Call)
 	case *ssa.RunDefers:
+		for _, pr := range [][2]string{{HLockW, HDefW}, {HLockR, HDefR}} {
+			if _, ok := c.R.heaps[pr[1]]; !ok || !fr.loopDefers {
+				continue
+			}
+			c.R.Heap(pr[0], ArraySort("Ref", "Int"))
+			lk, df := c.getHeap(st, pr[0]), c.getHeap(st, pr[1])
+			nl := c.fresh(pr[0], lk.Sort)
+			c.emit("(assert (forall ((m Ref)) (! (= (select %s m) (- (select %s m) (select %s m))) :pattern ((select %s m)))))", nl.S, lk.S, df.S, nl.S)
+			c.setHeap(st, pr[0], nl)
+			c.setHeap(st, pr[1], T{"((as const (Array Ref Int)) 0)", ArraySort("Ref", "Int")})
+		}
 		for i := len(fr.defers) - 1; i >= 0; i-- {
 			d := fr.defers[i]
 			// state where the defer was registered runs the call, else skip
@@ -927,4 +952,37 @@ func (fr *frame) hashable(st *State, k T, kt types.Type, pos token.Pos) {
 	c.R.UFun("hashableT", "(declare-fun hashableT (Int) Bool)")
 	c.useHashable = true
 	c.oblige(st, "unhashable-key", "map key of dynamic type", Or(IsNilIface(k), app("Bool", "hashableT", ITyp(k))), pos)
+}
+
+// escapes reports whether the address of an Alloc can reach a callee or the
+// heap (anything but direct loads, stores to it, and field/index addressing).
+func escapes(a ssa.Value) bool {
+	refs := a.Referrers()
+	if refs == nil {
+		return true
+	}
+	for _, in := range *refs {
+		switch x := in.(type) {
+		case *ssa.UnOp:
+			if x.Op != token.MUL {
+				return true
+			}
+		case *ssa.Store:
+			if x.Val == a {
+				return true
+			}
+		case *ssa.FieldAddr:
+			if escapes(x) {
+				return true
+			}
+		case *ssa.IndexAddr:
+			if escapes(x) {
+				return true
+			}
+		case *ssa.DebugRef:
+		default:
+			return true
+		}
+	}
+	return false
 }
